@@ -72,7 +72,7 @@ print(f"breaking: {len(br)} stored, {sum(1 for r in br if r[2]['static_check']['
 print(f"benign:   {len(be)} stored, {sum(1 for r in be if r[2]['static_check']['false_alarm'])} false alarms")
 if "--table" in sys.argv:
     def short(s, n):
-        s = " ".join(str(s).split())
+        s = " ".join(str(s).split()).replace("|", "/")  # a bar would end the table cell
         return s if len(s) <= n else s[:n-1] + "…"
     print("\n| id | change | caught by |\n|----|--------|-----------|")
     for _, name, m in br:
